@@ -20,12 +20,14 @@ type C09Case struct {
 	AccInc map[int]int `json:"acc_inc,omitempty"`
 	// Recycled: the same request is served once before on the same WAF (pooled transaction object reused)
 	Recycled bool `json:"recycled,omitempty"`
+	// Captures: a capturing @rx rule whose actions read TX.1 / TX.2 of the match at hand
+	Captures bool `json:"captures,omitempty"`
 }
 
 func genC09Actions(t *rapid.T, r *Rule, allowAcc bool, accInc map[int]int, topID int) {
 	n := rapid.IntRange(1, 3).Draw(t, "nacts")
 	for i := 0; i < n; i++ {
-		switch rapid.IntRange(0, 11).Draw(t, "act") {
+		switch rapid.IntRange(0, 12).Draw(t, "act") {
 		case 10:
 			// the operand names a variable that does not exist (either spelling of the collection): nothing is added
 			r.Acts = append(r.Acts, fmt.Sprintf("setvar:tx.score=+%%{%s.nosuch%d}", rapid.SampledFrom([]string{"tx", "TX", "Tx"}).Draw(t, "undefcoll"), rapid.IntRange(1, 2).Draw(t, "undefn")))
@@ -35,6 +37,9 @@ func genC09Actions(t *rapid.T, r *Rule, allowAcc bool, accInc map[int]int, topID
 			if rapid.Bool().Draw(t, "litmsg") {
 				r.Acts = append(r.Acts, "msg:'literal message'")
 			}
+		case 12:
+			// the whole name comes from a macro (tx.cname holds "dyn")
+			r.Acts = append(r.Acts, rapid.SampledFrom([]string{"setvar:tx.%{tx.cname}=+1", "setvar:tx.%{tx.cname}=+2", "setvar:!tx.%{tx.cname}", "setvar:tx.%{tx.cname}=7"}).Draw(t, "dynkey"))
 		case 0, 1:
 			r.Acts = append(r.Acts, fmt.Sprintf("setvar:tx.score=+%d", rapid.IntRange(1, 5).Draw(t, "inc")))
 		case 2:
@@ -95,7 +100,7 @@ func genC09(t *rapid.T) *C09Case {
 	c.Cfg.Engine = rapid.SampledFrom([]string{"On", "On", "On", "DetectionOnly"}).Draw(t, "engine")
 	w1, w2 := rapid.IntRange(-3, 5).Draw(t, "w1"), rapid.IntRange(2, 9).Draw(t, "w2")
 	items := []Item{{Rule: &Rule{ID: 1, Phase: 1, SecAction: true, Disr: "pass",
-		Acts: []string{fmt.Sprintf("setvar:tx.w1=%d", w1), fmt.Sprintf("setvar:tx.w2=%d", w2)}}}}
+		Acts: []string{fmt.Sprintf("setvar:tx.w1=%d", w1), fmt.Sprintf("setvar:tx.w2=%d", w2), "setvar:tx.cname=dyn"}}}}
 	n := rapid.IntRange(2, 7).Draw(t, "nrules")
 	id := 300
 	for i := 0; i < n; i++ {
@@ -153,6 +158,18 @@ func genC09(t *rapid.T) *C09Case {
 		}
 		items = append(items, Item{Rule: r})
 	}
+	if rapid.IntRange(0, 3).Draw(t, "capture") == 0 {
+		// a capturing rule over the values of one name (stored in request order), whose group takes part in the match for
+		// some values only, and actions that read the capture of the match at hand
+		id++
+		r := &Rule{ID: id, Phase: rapid.IntRange(1, 2).Draw(t, "capphase"), Disr: "pass", Capture: true,
+			Targets: []Target{{Var: "ARGS_GET", Key: "k"}}, // a name of its own: its values are stored in request order
+			Op:      "rx", Arg: rapid.SampledFrom([]string{"^(?:x(\\d)|y|X)$", "^x(\\d)?", "(x)|(y)", "^(z)?x"}).Draw(t, "cappat"),
+			Acts:    []string{"setvar:tx.lastcap=%{tx.1}", rapid.SampledFrom([]string{"setvar:tx.cap0=%{tx.0}", "setvar:tx.cap2=%{tx.2}"}).Draw(t, "capact")}}
+		pos := rapid.IntRange(1, len(items)).Draw(t, "cappos")
+		items = append(items[:pos], append([]Item{{Rule: r}}, items[pos:]...)...)
+		c.Captures = true
+	}
 	c.RS.Items = items
 	c.RS.Pre = c.Cfg.PreLines()
 	c.Recycled = rapid.IntRange(0, 2).Draw(t, "recycled") == 0
@@ -160,6 +177,14 @@ func genC09(t *rapid.T) *C09Case {
 	na := rapid.IntRange(0, 6).Draw(t, "nargs")
 	for i := 0; i < na; i++ {
 		c.Req.Query = append(c.Req.Query, KV{rapid.SampledFrom(c09Names).Draw(t, "an"), rapid.SampledFrom(c09Values).Draw(t, "av")})
+	}
+	if c.Captures {
+		// the values the capturing rule looks at, under a name nothing else uses
+		for i, n := 0, rapid.IntRange(1, 4).Draw(t, "ncap"); i < n; i++ {
+			pos := rapid.IntRange(0, len(c.Req.Query)).Draw(t, "capargpos")
+			kv := KV{"k", rapid.SampledFrom([]string{"x1", "x2", "y", "X", "x", "zx", "xy", "q"}).Draw(t, "capval")}
+			c.Req.Query = append(c.Req.Query[:pos], append([]KV{kv}, c.Req.Query[pos:]...)...)
+		}
 	}
 	return c
 }
@@ -207,6 +232,12 @@ func checkC09(c *C09Case) Result {
 			return res
 		}
 		res.Labels = append(res.Labels, "on-recycled-transaction")
+	}
+	if c.Captures {
+		res.Labels = append(res.Labels, "captures-read-by-actions")
+	}
+	if strings.Contains(conf, "tx.%{tx.cname}") {
+		res.Labels = append(res.Labels, "setvar-name-from-a-macro")
 	}
 	got, f := runCanonical(w, &c.Req)
 	if f != nil {
